@@ -480,6 +480,137 @@ func verif_C03_starttls_stub() {
 	verifReach("C03.starttls-end")
 }
 
+// verifTraceOrder checks the callback order session object by session object,
+// without any model of the server: nothing on a session before its NewSession or
+// after its Logout, at most one Logout, Mail/Rcpt/Data in transaction order
+// (Rcpt only after an accepted Mail, Data only after an accepted Rcpt, both since
+// the last Reset or completed Data on that very session). Returns "" or the name
+// of the rule that is broken.
+func verifTraceOrder(trace []vevent) string {
+	type st struct {
+		live, out, mail bool
+		rcpts           int
+	}
+	ss := map[int]*st{}
+	for _, e := range trace {
+		if e.kind == "NewSession" {
+			if e.err == nil {
+				ss[e.sess] = &st{live: true}
+			}
+			continue
+		}
+		x := ss[e.sess]
+		if x == nil {
+			return "callback-on-unknown-session"
+		}
+		if x.out {
+			if e.kind == "Logout" {
+				return "second-logout"
+			}
+			return "callback-after-logout"
+		}
+		switch e.kind {
+		case "Logout":
+			x.out = true
+		case "Reset":
+			x.mail, x.rcpts = false, 0
+		case "Mail":
+			if e.err == nil {
+				x.mail = true
+			}
+		case "Rcpt":
+			if !x.mail {
+				return "rcpt-without-mail-on-this-session"
+			}
+			if e.err == nil {
+				x.rcpts++
+			}
+		case "Data", "LMTPData":
+			if !x.mail || x.rcpts == 0 {
+				return "data-without-recipient-on-this-session"
+			}
+		}
+	}
+	return ""
+}
+
+// verif_C03_failed_starttls_stub: a STARTTLS whose handshake FAILS is answered
+// 550 and the connection goes on in plaintext, possibly with a transaction
+// open. Whether the server keeps the old session or ends it, the callback
+// order holds session object by session object (verifTraceOrder), nothing is
+// logged (no recovered panic), every reply is well formed and the connection
+// is still in command mode at the end.
+func verif_C03_failed_starttls_stub() { verifFailedStartTLS("C03") }
+
+func verifFailedStartTLS(prop string) {
+	verifPreemptBound(0)
+	pre := verifChoice(3) // 0 greeted, 1 MAIL, 2 MAIL+RCPT
+	lmtp := nondetBool()
+	be := &vbackend{}
+	s, lg := verifServer(be)
+	s.LMTP = lmtp
+	s.TLSConfig = &tls.Config{}
+	hello := "EHLO"
+	if lmtp {
+		hello = "LHLO"
+	}
+	in := hello + " p.example\r\n"
+	if pre >= 1 {
+		in += "MAIL FROM:<early@v>\r\n"
+	}
+	if pre >= 2 {
+		in += "RCPT TO:<r@v>\r\n"
+	}
+	in += "STARTTLS\r\n"
+	// the peer may also simply disconnect when the handshake has failed
+	gone := nondetBool()
+	reHello := !gone && nondetBool()
+	if reHello {
+		in += hello + " q.example\r\n"
+	}
+	probe := verifChoice(4)
+	// the DATA probe: if DATA is accepted the NOOP line is the body, if it is
+	// refused the NOOP is a command and the lone dot a bad command
+	if !gone {
+		in += []string{"RCPT TO:<late@v>\r\n", "DATA\r\nNOOP\r\n.\r\n", "BDAT 1 LAST\r\nx", "MAIL FROM:<second@v>\r\nRCPT TO:<late@v>\r\n"}[probe]
+		in += "NOOP\r\n"
+	}
+	vc := &vconn{in: []byte(in), final: io.EOF, tlsFail: true}
+	conn := newConn(vc, s)
+	s.handleConn(conn)
+	verifSettle()
+	reps, wf := verifParseReplies(vc.out)
+	need := 5 + pre
+	if gone {
+		need = 4 + pre
+	}
+	verifAssert(wf && len(reps) >= need, prop+".failed-starttls-replies-well-formed")
+	if !wf || len(reps) < need {
+		return
+	}
+	verifObserve("c03ftls", pre, lmtp, gone, reHello, probe, len(reps), len(be.trace), reps[len(reps)-1].code)
+	verifAssert(reps[2+pre].code == 220 && reps[3+pre].code/100 == 5, prop+".failed-handshake-answered-negatively")
+	if !gone {
+		verifAssert(reps[len(reps)-1].code == 250, prop+".failed-starttls-command-mode-at-end")
+	}
+	verifAssert(len(vc.tlsOut) == 0, prop+".failed-starttls-nothing-sent-as-tls")
+	rule := verifTraceOrder(be.trace)
+	verifObserve("c03ftls-rule", rule)
+	verifAssert(rule == "", prop+".failed-starttls-callback-order-per-session")
+	verifAssert(lg.lines == 0, prop+".failed-starttls-no-logged-errors")
+	// exactly one Logout per session at the end of the connection
+	for id := 1; id <= be.sessions; id++ {
+		n := 0
+		for _, e := range be.trace {
+			if e.kind == "Logout" && e.sess == id {
+				n++
+			}
+		}
+		verifAssert(n == 1, prop+".failed-starttls-every-session-logged-out-once")
+	}
+	verifReach(prop + ".failed-starttls-end")
+}
+
 // verif_C03_step: ONE command from an ARBITRARY connection state that
 // satisfies the invariant
 //
